@@ -1,0 +1,120 @@
+//go:build verif
+
+package group_create
+
+import (
+	"strconv"
+
+	"com.tuntun.rangers/node/src/common"
+	"com.tuntun.rangers/node/src/consensus/access"
+	"com.tuntun.rangers/node/src/consensus/groupsig"
+	"com.tuntun.rangers/node/src/consensus/model"
+	"com.tuntun.rangers/node/src/consensus/net"
+	"com.tuntun.rangers/node/src/middleware/log"
+)
+
+// verif hook H3 (group creation part): a driver over the node's own
+// distributed key generation (groupInitContext / groupNodeInfo), and the
+// injection point for the member public shares that round1.Update looks up
+// through GroupCreateProcessor. Used by the verification harness only.
+
+// VerifInitLoggers creates the package loggers that Init would create.
+func VerifInitLoggers() {
+	idx := strconv.Itoa(common.InstanceIndex)
+	groupCreateLogger = log.GetLoggerByIndex(log.GroupCreateLogConfig, idx)
+	groupCreateDebugLogger = log.GetLoggerByIndex(log.GroupCreateDebugLogConfig, idx)
+}
+
+// VerifDKGNode is one member's view of a group being created: the node's
+// groupInitContext with its groupNodeInfo.
+type VerifDKGNode struct {
+	ID  groupsig.ID
+	ctx *groupInitContext
+}
+
+// VerifNewDKGNode builds the context exactly as OnMessageGroupInit does
+// (newGroupInitContext -> NewGroupNodeInfo with the miner's secret seed).
+func VerifNewDKGNode(mi *model.SelfMinerInfo, info *model.GroupInitInfo) *VerifDKGNode {
+	if groupCreateLogger == nil {
+		VerifInitLoggers()
+	}
+	ctx := newGroupInitContext(info, info.GroupMembers, mi)
+	if ctx == nil {
+		return nil
+	}
+	return &VerifDKGNode{ID: mi.ID, ctx: ctx}
+}
+
+// GenSharePieces is groupInitContext.GenSharePieces: member id (hex) -> the
+// piece this dealer sends to that member (share of its polynomial + the public
+// key of its constant coefficient).
+func (d *VerifDKGNode) GenSharePieces() map[string]model.SharePiece {
+	return d.ctx.GenSharePieces()
+}
+
+// HandleSharePiece is groupInitContext.HandleSharePiece -> groupNodeInfo.handleSharePiece:
+// 0 stored, -1 duplicate / failure, 1 all pieces present and keys aggregated.
+func (d *VerifDKGNode) HandleSharePiece(from groupsig.ID, piece model.SharePiece) int {
+	return d.ctx.HandleSharePiece(from, &piece)
+}
+
+// Threshold is groupNodeInfo.threshold (degree + 1 of the dealt polynomial).
+func (d *VerifDKGNode) Threshold() int { return d.ctx.nodeInfo.threshold() }
+
+// SignSecKey is the aggregated member secret share (valid after return code 1).
+func (d *VerifDKGNode) SignSecKey() groupsig.Seckey { return d.ctx.nodeInfo.getSignSecKey() }
+
+// GroupPubKey is the aggregated group public key (valid after return code 1).
+func (d *VerifDKGNode) GroupPubKey() groupsig.Pubkey { return d.ctx.nodeInfo.getGroupPubKey() }
+
+// SeedPubKey is the public key of the dealer's constant coefficient.
+func (d *VerifDKGNode) SeedPubKey() groupsig.Pubkey { return d.ctx.nodeInfo.getSeedPubKey() }
+
+// ReceivedCount is the number of pieces stored so far.
+func (d *VerifDKGNode) ReceivedCount() int {
+	d.ctx.nodeInfo.lock.RLock()
+	defer d.ctx.nodeInfo.lock.RUnlock()
+	return d.ctx.nodeInfo.receivedSharePieceCount()
+}
+
+// verifNet is a NetworkServer that sends nothing and counts the calls.
+type verifNet struct{ Calls int }
+
+func (n *verifNet) SendGroupPingMessage(*model.CreateGroupPingMessage, groupsig.ID)    { n.Calls++ }
+func (n *verifNet) SendGroupPongMessage(*model.CreateGroupPongMessage, string, bool)   { n.Calls++ }
+func (n *verifNet) SendCreateGroupRawMessage(*model.ParentGroupConsensusMessage, bool) { n.Calls++ }
+func (n *verifNet) SendCreateGroupSignMessage(*model.ParentGroupConsensusSignMessage, groupsig.ID) {
+	n.Calls++
+}
+func (n *verifNet) SendGroupInitMessage(*model.GroupInitMessage)                     { n.Calls++ }
+func (n *verifNet) SendKeySharePiece(*model.SharePieceMessage)                       { n.Calls++ }
+func (n *verifNet) SendSignPubKey(*model.SignPubKeyMessage)                          { n.Calls++ }
+func (n *verifNet) BroadcastGroupInfo(*model.GroupInitedMessage)                     { n.Calls++ }
+func (n *verifNet) SendCandidate(*model.ConsensusCastMessage)                        { n.Calls++ }
+func (n *verifNet) SendVerifiedCast(*model.ConsensusVerifyMessage, groupsig.ID)      { n.Calls++ }
+func (n *verifNet) BroadcastNewBlock(*model.ConsensusBlockMessage)                   { n.Calls++ }
+func (n *verifNet) JoinGroupNet(string)                                              { n.Calls++ }
+func (n *verifNet) ReleaseGroupNet(string)                                           { n.Calls++ }
+func (n *verifNet) ReqSharePiece(*model.ReqSharePieceMessage, groupsig.ID)           { n.Calls++ }
+func (n *verifNet) ResponseSharePiece(*model.ResponseSharePieceMessage, groupsig.ID) { n.Calls++ }
+func (n *verifNet) AskSignPkMessage(*model.SignPubkeyReqMessage, groupsig.ID)        { n.Calls++ }
+func (n *verifNet) AnswerSignPkMessage(*model.SignPubKeyMessage, groupsig.ID)        { n.Calls++ }
+
+var _ net.NetworkServer = (*verifNet)(nil)
+
+// VerifNewNet returns a NetworkServer that drops every message.
+func VerifNewNet() net.NetworkServer { return &verifNet{} }
+
+// VerifInstallJoinedGroups makes GroupCreateProcessor.GetMemberSignPubKey
+// (the lookup round1.Update uses for a sender's public share) answer from the
+// given joined-group storage. The processor's own miner identity stays empty
+// and its network server drops everything, so an unknown sender triggers no
+// traffic.
+func VerifInstallJoinedGroups(storage *access.JoinedGroupStorage) {
+	if groupCreateLogger == nil {
+		VerifInitLoggers()
+	}
+	GroupCreateProcessor.minerInfo = model.SelfMinerInfo{}
+	GroupCreateProcessor.joinedGroupStorage = storage
+	GroupCreateProcessor.NetServer = &verifNet{}
+}
